@@ -21,8 +21,13 @@
    Oracles (Section variables): [fmt] = str.format of a non-str value inside the f-string that
    builds `basename:name` (loader.py 335); [fnmatch] = fnmatch.fnmatch (control.py 140).
 
-   Not modelled: _get_task_creators (the ordered list of creators is the input; its command-name
-   check is), @task_params / creator_params, the `doc` attribute beyond its type check (the
+   _get_task_creators + the sort by definition line (loader.py 148-150, 234-280) are modelled at the end
+   of the file ([entry], [get_task_creators], [sort_by_line], [load_namespace]): which objects of the
+   namespace are task-creators and under which name is decided by the model; the line number
+   `inspect.getsourcelines(ref)[1]` of each is an input.  [load] / [load_tasks] take the already
+   ordered list of creators.
+
+   Not modelled: @task_params / creator_params, the `doc` attribute beyond its type check (the
    creator docstring put into the dict is a str or None, always valid), lazily created `actions`
    instances (created at execution, not at load), result_dep objects given by the user in
    `uptodate`, BaseAction instances given in clean/teardown. *)
@@ -570,6 +575,71 @@ Definition control (ts : list task) : res (list task) :=
 (* loading as `doit run` / `doit clean` do it: load_tasks, then TaskControl *)
 Definition load (cmds : list string) (allow_delayed : bool) (cs : list creator) : res (list task) :=
   do ts <- load_tasks cmds allow_delayed cs ;; control ts.
+
+(* ------------------------------------------------------------------ _get_task_creators (loader.py 234-280)
+   and `funcs.sort(key=lambda obj: obj[2])` (loader.py 150).
+   An entry = one (name, object) pair of the namespace, in the iteration order of the dict
+   (DodoTaskLoader / ModuleTaskLoader(module): dict(inspect.getmembers(module)), i.e. sorted by name;
+   ModuleTaskLoader(globals()): order of first binding).  The facts about the object the code asks for
+   are inputs.  [cinfo] describes a callable: its line inspect.getsourcelines(ref)[1], what calling it
+   gives, its `doit_create_after` annotation. *)
+Record cinfo := {
+  ci_line : Z;
+  ci_result : item;
+  ci_delayed : option (option string * list string)
+}.
+Record entry := {
+  e_name : string;                           (* name in the namespace *)
+  e_is_task_params : bool;                   (* `ref is task_params` (loader.py 250) *)
+  e_isfunc : bool;                           (* inspect.isfunction(ref) or inspect.ismethod(ref) *)
+  e_self : cinfo;                            (* the object itself as a callable (meaningful when e_isfunc) *)
+  e_create : option (option string * cinfo)  (* hasattr(ref, 'create_doit_tasks'): its `basename` attribute if it
+                                                has one (a str), and that callable *)
+}.
+
+(* name[len("task_"):] when name.startswith("task_") *)
+Definition task_prefix : string := "task_"%string.
+Fixpoint strip_prefix (p s : string) : option string :=
+  match p with
+  | EmptyString => Some s
+  | String c p' => match s with
+                   | String d s' => if Ascii.eqb c d then strip_prefix p' s' else None
+                   | EmptyString => None
+                   end
+  end.
+
+(* the body of the loop of _get_task_creators: (line, creator) or nothing *)
+Definition mk_creator (n : string) (ci : cinfo) : Z * creator :=
+  (ci_line ci, {| c_name := n; c_result := ci_result ci; c_delayed := ci_delayed ci |}).
+Definition entry_creator (e : entry) : option (Z * creator) :=
+  if e_is_task_params e then None else
+  match (if e_isfunc e then strip_prefix task_prefix (e_name e) else None) with
+  | Some n => Some (mk_creator n (e_self e))                           (* loader.py 254-257 *)
+  | None =>
+      match e_create e with
+      | Some (Some b, ci) => Some (mk_creator b ci)                    (* loader.py 259-262 *)
+      | Some (None, ci) => Some (mk_creator (e_name e) ci)
+      | None => None                                                   (* not a task-creator *)
+      end
+  end.
+Definition get_task_creators (ns : list entry) : list (Z * creator) :=
+  flat_map (fun e => match entry_creator e with Some x => [x] | None => [] end) ns.
+
+(* list.sort(key=line): stable -- equal lines keep the order of the namespace *)
+Fixpoint ins_by_line (x : Z * creator) (l : list (Z * creator)) : list (Z * creator) :=
+  match l with
+  | [] => [x]
+  | y :: r => if fst x <=? fst y then x :: y :: r else y :: ins_by_line x r
+  end.
+Definition sort_by_line (l : list (Z * creator)) : list (Z * creator) := fold_right ins_by_line [] l.
+
+Definition ordered_creators (ns : list entry) : list creator := map snd (sort_by_line (get_task_creators ns)).
+
+(* load_tasks(namespace, ...) then TaskControl; and load_tasks alone *)
+Definition load_namespace (cmds : list string) (allow_delayed : bool) (ns : list entry) : res (list task) :=
+  load cmds allow_delayed (ordered_creators ns).
+Definition load_tasks_namespace (cmds : list string) (allow_delayed : bool) (ns : list entry) : res (list task) :=
+  load_tasks cmds allow_delayed (ordered_creators ns).
 
 End Oracles.
 
